@@ -32,7 +32,28 @@ fn props() -> Vec<PropDef> {
 			}
 		};
 	}
-	vec![p!("C02", "exploration", c02), p!("C07", "exploration", c07)]
+	vec![
+		p!("C01", "exploration", c01),
+		p!("C02", "exploration", c02),
+		p!("C03", "exploration", c03),
+		p!("C04", "exploration", c04),
+		p!("C05", "exploration", c05),
+		p!("C06", "exploration", c06),
+		p!("C07", "exploration", c07),
+		p!("C08", "exploration", c08),
+		p!("C09", "fault_enumeration", c09),
+		p!("C10", "exploration", c10),
+		p!("C11", "exploration", c11),
+		p!("C12", "exploration", c12),
+		p!("C13", "exploration", c13),
+		p!("C14", "exploration", c14),
+		p!("C15", "exploration", c15),
+		p!("C16", "exploration", c16),
+		p!("C17", "exploration", c17),
+		p!("C18", "exploration", c18),
+		p!("C19", "exploration", c19),
+		p!("C20", "exploration", c20),
+	]
 }
 
 fn root_dir() -> PathBuf {
